@@ -43,6 +43,7 @@ Definition otto_number (v : val) : option (bool * Z) :=
               | [] => Some (true, 0)
               | _ => option_map (fun z => (true, sat64 z)) (parse_digits s 0)
               end
+  | VGet _ _ => None
   end.
 Definition otto_int64 (v : val) : option Z := option_map snd (otto_number v).
 
